@@ -174,7 +174,8 @@ where
                 Poll::Pending => (),
             }
 
-            if server.is_some() {
+            // Only take the next reply once the previous one has been handed to its requestor
+            if server.is_some() && buffered_rep.is_none() {
                 let st = &mut server.as_mut().as_pin_mut().unwrap().1;
 
                 match st.poll_next_unpin(cx) {
